@@ -371,7 +371,7 @@ func (e *Env) tr(x Expr) Val {
 		}
 		if strings.HasPrefix(b.S, "(Slc ") && lo == "0" {
 			hi := e.tr(x.Hi).T
-			return Val{T: "(mk_slc (slc_arr " + b.T + ") " + hi + ")", S: b.S, G: b.G}
+			return Val{T: "((as mk_slc " + b.S + ") (slc_arr " + b.T + ") " + hi + ")", S: b.S, G: b.G}
 		}
 		e.fail("cannot slice %s", b.S)
 	case ECall:
@@ -454,6 +454,12 @@ func (e *Env) ident(name string) Val {
 	}
 	if name == "nil" {
 		return Val{T: "$nil", S: "$nil"}
+	}
+	if name == "$iter" && e.act != nil {
+		if v, ok := e.act.lookupLocal("rangeint.iter", e.at, e.atIdx, e.phiOv); ok {
+			return v
+		}
+		e.fail("$iter used outside a range-over-int loop")
 	}
 	if name == "$i" && e.act != nil {
 		if v, ok := e.act.lookupLocal("rangeindex", e.at, e.atIdx, e.phiOv); ok {
@@ -697,6 +703,24 @@ func (e *Env) call(x ECall) Val {
 		tn := exprString(x.Args[1])
 		s, gt := w.specSort(tn, e.pkg)
 		return Val{T: "(" + w.payFn(s) + " " + v.T + ")", S: s, G: gt}
+	case "unboxRef":
+		v := e.tr(x.Args[0])
+		return Val{T: "(" + w.payFn("Ref") + " " + v.T + ")", S: "Ref"}
+	case "bytes":
+		// bytes(s): []byte(s)
+		v := e.tr(x.Args[0])
+		if v.S != "Str" {
+			e.fail("bytes() needs a string")
+		}
+		return Val{T: e.g.bytesOf(v.T), S: "(Slc Int)"}
+	case "pair2":
+		vs := args()
+		if len(vs) != 2 || vs[0].S != vs[1].S {
+			e.fail("pair2(a,b) needs two values of one sort")
+		}
+		es := vs[0].S
+		w.elemSorts[es] = true
+		return Val{T: "((as mk_slc (Slc " + es + ")) (store (store ((as const (Array Int " + es + ")) " + w.zeroSort(es) + ") 0 " + vs[0].T + ") 1 " + vs[1].T + ") 2)", S: "(Slc " + es + ")"}
 	case "str":
 		// str(b): the string with the bytes of the []byte b
 		v := e.tr(x.Args[0])
